@@ -13,6 +13,7 @@ import SnapraidVerif.Hash.Murmur3
 import SnapraidVerif.Hash.Spooky2
 import SnapraidVerif.Props.C12
 import SnapraidVerif.Array.Scan
+import SnapraidVerif.Array.ScanSeq
 import SnapraidVerif.Array.Shortcut
 import SnapraidVerif.Ring.Model
 
@@ -312,6 +313,34 @@ def handle (toks : List String) : String :=
        let res := if pre = "1" then Shortcut.syncWithPrehash id ss else ss.map (Shortcut.parityWritten id)
        String.intercalate "" (res.map fun b => if b then "1" else "0")
      | none => "bad-op")
+  | "scan-seq" :: useInode :: rest =>
+    -- scan-seq <0|1> K <recorded…> O <copy sources on other disks…> P <present, in walk order…>
+    -- recorded entry = pathhex:size:sec:nsec:inode:hashed, others = pathhex:size:sec:nsec:inode
+    -- reply: one letter per present entry (e m r u c a o h), the number of recorded files not seen, the indexes of the
+    -- recorded entries removed because they changed, the final path of every recorded entry (renamed on a move)
+    let parseF (t : List String) : Option Scan.FileId := match t with
+      | [p, a, b, c, d] => match (if p = "-" then some [] else parseHex8 p), a.toNat?, b.toNat?, c.toNat?, d.toNat? with
+        | some p, some a, some b, some c, some d => some { path := p, size := a, sec := b, nsec := c, inode := d }
+        | _, _, _, _, _ => none
+      | _ => none
+    let parseK (t : String) : Option (Scan.FileId × Bool) :=
+      let f := t.splitOn ":"
+      (parseF (f.take 5)).map fun x => (x, f.getD 5 "0" == "1")
+    let afterK := rest.drop 1
+    let known := afterK.takeWhile (· ≠ "O")
+    let afterO := (afterK.dropWhile (· ≠ "O")).drop 1
+    let others := afterO.takeWhile (· ≠ "P")
+    let present := (afterO.dropWhile (· ≠ "P")).drop 1
+    match known.mapM parseK, others.mapM (fun t => parseF (t.splitOn ":")), present.mapM (fun t => parseF (t.splitOn ":")) with
+    | some k, some o, some p =>
+      let r := ScanSeq.scanAll (useInode = "1") o (ScanSeq.initSt (useInode = "1") k) p
+      let cls := r.2.map fun x => match x.cls with
+        | .equal => "e" | .move => "m" | .restore => "r" | .change => "u" | .copy => "c" | .add => "a" | .copyOver => "o" | .hardlink => "h"
+      let rem := (List.range r.1.n).filter fun i => (r.1.e i).removed
+      let paths := (List.range r.1.n).map fun i => let h := hex8 (r.1.e i).id.path; if h.isEmpty then "-" else h
+      String.intercalate "" cls ++ " " ++ toString (ScanSeq.removedCount r.1) ++ " " ++ String.intercalate "," (rem.map toString)
+        ++ " " ++ String.intercalate "," paths
+    | _, _, _ => "bad-op"
   | "scan-classify" :: useInode :: rest =>
     -- scan-classify <0|1> K <known…> C <copy sources…> P <present…>; entry = pathhex:size:sec:nsec:inode
     let parseE (t : String) : Option Scan.FileId := match t.splitOn ":" with
